@@ -54,6 +54,7 @@ type G struct {
 	F    Features
 	b    strings.Builder
 	ids  []string // quoted keys of the shapes declared at the current board's top level
+	nb   int
 	Rich bool     // allow markdown / code / latex labels (markup by design)
 }
 
@@ -228,7 +229,7 @@ func (g *G) shape(ind, depth int) string {
 		g.F["shape:sql_table"]++
 		g.p(ind+1, "shape: sql_table")
 		if g.chance(2) {
-			g.p(ind+1, "label: %s", Q(g.S.Str("label")))
+			g.p(ind+1, "label: %s", Q(strings.ReplaceAll(g.S.Str("label"), "\n", " "))) // no newlines in table labels
 		}
 		for i, n := 0, g.R.Intn(4); i < n; i++ {
 			cons := ""
@@ -361,6 +362,9 @@ func (g *G) edge(ind int, ids []string) {
 
 func (g *G) board(ind int) {
 	var ids []string
+	if m := g.S.Str("mark"); m != "" {
+		g.p(ind, "mk%d: %s", g.R.Intn(100000), Q(m))
+	}
 	for i, n := 0, 1+g.R.Intn(4); i < n; i++ {
 		ids = append(ids, g.shape(ind, 0))
 	}
@@ -382,9 +386,42 @@ func (g *G) board(ind int) {
 	}
 }
 
+// boards writes one or two board sections (layers / scenarios / steps) with n boards each; a board may itself carry
+// nested sections (depth <= 2), so that trees such as scenario -> steps -> layers occur.
+func (g *G) boards(ind, n, depth int) {
+	kinds := []string{"layers", "scenarios", "steps"}
+	g.R.Shuffle(len(kinds), func(i, j int) { kinds[i], kinds[j] = kinds[j], kinds[i] })
+	sections := 1
+	if g.chance(3) {
+		sections = 2
+	}
+	for _, kind := range kinds[:sections] {
+		g.F["boards:"+kind]++
+		if depth > 0 {
+			g.F["boards:nested:"+kind]++
+		}
+		g.p(ind, "%s: {", kind)
+		for i := 0; i < n; i++ {
+			g.nb++
+			name := fmt.Sprintf("b%d", g.nb) // board names are unique per diagram level across sections
+			if g.chance(4) {
+				name = Q(g.S.Str("board"))
+			}
+			g.p(ind+1, "%s: {", name)
+			g.board(ind + 2)
+			if depth < 2 && g.chance(2) {
+				g.boards(ind+2, 1+g.R.Intn(2), depth+1)
+			}
+			g.p(ind+1, "}")
+		}
+		g.p(ind, "}")
+	}
+}
+
 // Script generates one mostly-valid D2 program. boards > 0 adds that many layers/scenarios/steps.
 func (g *G) Script(boards int) string {
 	g.b.Reset()
+	g.nb = 0
 	if g.chance(6) {
 		g.F["legend"]++
 		g.p(0, "vars: {")
@@ -415,19 +452,7 @@ func (g *G) Script(boards int) string {
 	}
 	g.board(0)
 	if boards > 0 {
-		kind := pick(g.R, []string{"layers", "scenarios", "steps"})
-		g.F["boards:"+kind]++
-		g.p(0, "%s: {", kind)
-		for i := 0; i < boards; i++ {
-			name := fmt.Sprintf("b%d", i)
-			if g.chance(4) {
-				name = Q(g.S.Str("board"))
-			}
-			g.p(1, "%s: {", name)
-			g.board(2)
-			g.p(1, "}")
-		}
-		g.p(0, "}")
+		g.boards(0, boards, 0)
 	}
 	return g.b.String()
 }
